@@ -60,6 +60,7 @@ type optSpec struct {
 	get     func(c *core.Configuration) []string
 	def     []string // documented default (value with no source at all)
 	lateDef bool     // default is installed by setDefault after reading (repeated options)
+	index   int
 }
 
 func id(xs ...string) []tv {
@@ -154,17 +155,8 @@ var optByName = map[string]*optSpec{}
 
 func (o *optSpec) multi() bool { return o.kind == "multi" }
 
-func (o *optSpec) coq() string {
-	switch o.kind {
-	case "multi":
-		return lib.App("Multi", lib.Str(o.name))
-	case "bool":
-		return lib.App("Single SBool", lib.Str(o.name))
-	case "map":
-		return lib.App("Single SMap", lib.Str(o.name))
-	}
-	return lib.App("Single SStr", lib.Str(o.name))
-}
+// coq names the option by its index in Model.C39.sampled (same order as opts)
+func (o *optSpec) coq() string { return fmt.Sprintf("(O %d)", o.index) }
 
 // ---------------------------------------------------------------------------------------------
 // a case
@@ -416,11 +408,37 @@ func run(c *caseT) {
 }
 
 // ---------------------------------------------------------------------------------------------
-// Coq term
+// Coq term. Strings are interned: the case files start with one definition per distinct string
+// (type-checking string literals dominates the evaluation time otherwise).
+
+var internIdx = map[string]int{}
+var internDefs []string
+
+func S(x string) string {
+	i, ok := internIdx[x]
+	if !ok {
+		i = len(internDefs)
+		internIdx[x] = i
+		internDefs = append(internDefs, fmt.Sprintf("Definition z%d : str := Eval vm_compute in %s.", i, lib.Str(x)))
+	}
+	return fmt.Sprintf("z%d", i)
+}
+
+func SList(xs []string) string {
+	out := make([]string, len(xs))
+	for i, x := range xs {
+		out[i] = S(x)
+	}
+	return lib.List(out)
+}
+
+func modelHeader() string {
+	return "From PlzV Require Import Model.C39.\n" + strings.Join(internDefs, "\n")
+}
 
 func coqEnv(e envT) string {
 	return fmt.Sprintf("{| e_xdg_dirs := %s; e_home := %s; e_xdg_home := %s; e_root := %s; e_arch := %s |}",
-		lib.Str(e.XdgDirs), lib.Str(e.Home), lib.Str(e.XdgHome), lib.Str(e.Root), lib.Str(core.OsArch))
+		S(e.XdgDirs), S(e.Home), S(e.XdgHome), S(e.Root), S(core.OsArch))
 }
 
 func coqCase(c *caseT) string {
@@ -428,7 +446,7 @@ func coqCase(c *caseT) string {
 	if c.Default {
 		files = lib.App("Default", coqEnv(c.Env))
 	} else {
-		files = lib.App("Explicit", lib.StrList(c.Names))
+		files = lib.App("Explicit", SList(c.Names))
 	}
 	fsItems := []string{}
 	for _, f := range c.Files {
@@ -438,10 +456,10 @@ func coqCase(c *caseT) string {
 			if a.Blank {
 				as = append(as, lib.App("Blank", o.coq()))
 			} else {
-				as = append(as, lib.App("Assign", o.coq(), lib.Str(a.Canon)))
+				as = append(as, lib.App("Assign", o.coq(), S(a.Canon)))
 			}
 		}
-		fsItems = append(fsItems, lib.Pair(lib.Str(f.Name), lib.List(as)))
+		fsItems = append(fsItems, lib.Pair(S(f.Name), lib.List(as)))
 	}
 	ovs := []string{}
 	for _, ov := range c.Overrides {
@@ -450,17 +468,17 @@ func coqCase(c *caseT) string {
 		if o.multi() {
 			v = ov.Text
 		}
-		ovs = append(ovs, lib.Pair(o.coq(), lib.Str(v)))
+		ovs = append(ovs, lib.Pair(o.coq(), S(v)))
 	}
 	result := "None"
 	if c.Err == "" {
 		items := []string{}
-		for i, o := range opts {
-			items = append(items, lib.Pair(o.coq(), lib.StrList(c.Result[i])))
+		for i := range opts {
+			items = append(items, SList(c.Result[i]))
 		}
 		result = lib.Some(lib.List(items))
 	}
-	return lib.App("CRead", files, lib.StrList(c.Profiles), lib.List(fsItems), lib.List(ovs), lib.StrList(c.Opens), result)
+	return lib.App("CRead", files, SList(c.Profiles), lib.List(fsItems), lib.List(ovs), SList(c.Opens), result)
 }
 
 // ---------------------------------------------------------------------------------------------
@@ -748,11 +766,12 @@ func oracle(c *lib.Ctx, cs *caseT) {
 
 func main() {
 	cli.InitLogging(cli.MinVerbosity)
-	for _, o := range opts {
+	for i, o := range opts {
 		optByName[o.name] = o
+		o.index = i
 	}
 	lib.Main("C39", func(c *lib.Ctx) {
-		c.Model("From PlzV Require Import Model.C39.", "C39.case", "C39.check")
+		defer func() { c.Model(modelHeader(), "C39.case", "C39.check") }()
 		c.Rule("generated sets of config files in an in-memory io/fs.FS read by the real core.ReadDefaultConfigFiles (4/5, under generated HOME/XDG_*/RepoRoot) or " +
 			"core.ReadConfigFiles with an explicit name list (1/5), 0-2 profiles (incl. 'local' and a repeated profile), 1-4 focus options out of 23 sampled " +
 			"(string, cli.URL, bool, int, cli.Duration, map[string]string entries, []string, []string with options, []BuildLabel, []cli.URL; with built-in, late and no defaults), " +
